@@ -60,7 +60,7 @@ class C09(Check):
     def run(self, ctx):
         env = ops_mod.Env(ctx)
         try:
-            for phase in (self.corpus, self.exhaustive, self.on_valid_sheets, self.boundary, self.random_walks):
+            for phase in (self.corpus, self.exhaustive, self.on_valid_sheets, self.boundary, self.blocks, self.random_walks):
                 ctx.phase(phase, ctx, env)
             ctx.phase(env.flush)
         finally:
@@ -151,6 +151,42 @@ class C09(Check):
         for h in ops_mod.boundary_histories():
             for raising in (True, False):
                 env.history(h, raising=raising, kind='boundary')
+
+    def blocks(self, ctx, env):
+        """declaration blocks and properties as objects: ALL sequences of length <= 2 (quick) / 3 (thorough) over the
+        operations on the block of one style rule, both modes; every operation on every kind of rule with a style at
+        every depth, followed by operations that remove the rule (its block stays with it)"""
+        S = Spec
+        mar = S('margin', pre='@top-left')
+        base = ('text', [S('style'), S('media', kids=[S('style'), S('page', kids=[mar])]), S('fontface'), S('page', kids=[mar])])
+        paths = [(0,), (1, 0), (1, 1), (1, 1, 0), (2,), (3,), (3, 0)]
+        good, mixed, bad = [('top', 1), ('color', 1)], [('top', 0), ('color', 1)], [('right', 0)]
+
+        def alphabet(p, full=True):
+            forms = (0, 1) if p in ((1, 1), (3,)) else (0, 1, 2)         # the text of an @page rule is a rule-list operation
+            a = [('dnew', p, it, f) for f in forms for it in ((good, mixed, bad, []) if full else (good, mixed))]
+            a += [('dtext', p, it) for it in (good, mixed, bad, [])]
+            a += [('dset', p, 'top', 1, 0, 1), ('dset', p, 'top', 1, 0, 0), ('dset', p, 'top', 0, 0, 1), ('dset', p, 'top', 1, 1, 1),
+                  ('dset', p, 'right', 1, 0, 1), ('dset', p, 'color', 1, 1, 0), ('dsetobj', p, 'top'), ('dsetobj', p, 'right'),
+                  ('ddel', p, 'top'), ('ddel', p, 'color'), ('dshare', p, p)]
+            return a
+        depth = ctx.n(2, 3)
+        count = 0
+        small = alphabet((0,), full=False)
+        for n in range(1, depth + 1):
+            for seq in itertools.product(alphabet((0,)) if n < 3 else small, repeat=n):
+                for raising in (True, False):
+                    env.history([base] + list(seq), raising=raising, kind='blocks-exhaustive-%d' % n)
+                    count += 1
+        removers = {(0,): [('del', 0)], (1, 0): [('ndel', (1,), 0)], (1, 1): [('ntext', (1,), [S('style')])],
+                    (1, 1, 0): [('ndel', (1, 1), 0)], (2,): [('text', [])], (3,): [('del', -1)], (3, 0): [('ntext', (3,), [])]}
+        for p in paths:
+            for op in alphabet(p):
+                for raising in (True, False):
+                    env.history([base, op, ('dset', p, 'color', 1, 0, 1)] + removers[p] + [('add', S('style'), 0)],
+                                raising=raising, kind='blocks-boundary')
+                    count += 1
+        ctx.notes['block_histories'] = count
 
     def random_walks(self, ctx, env):
         rng = ctx.sub_rng('walks')
